@@ -230,7 +230,8 @@ class Session:
         if self.cfg["storage"] != "csv":
             return
         self.db.close()
-        self.db = self._open()
+        # "w+" means "start empty": a later session on the same file opens it normally
+        self.db = self._open("r+" if self.cfg.get("access_mode") == "w+" else None)
 
     def clone(self):
         """A twin with the same stored contents, index validity and model."""
@@ -257,7 +258,7 @@ class Session:
                 pass
             shutil.copyfile(self.path, t.path)
             with quiet_stdout():
-                t.db = t._open()
+                t.db = t._open("r+" if self.cfg.get("access_mode") == "w+" else None)
                 if self.valid() and not t.valid():
                     t.db.reindex()
         return t
